@@ -43,7 +43,19 @@ func runC18(r *run) {
 	base := slog.LstdFlags &^ (slog.Lprivacypath | slog.Lprivacypathregexp | slog.Lcaller)
 	ctx := context.Background()
 	rec := &recorder{}
+	wd0 := wd
+	altDir, err := os.MkdirTemp("", "c18alt")
+	must(err)
+	defer os.RemoveAll(altDir)
+	defer os.Chdir(wd0)
 	for h := 0; h < nh; h++ {
+		// the working directory is read when a path is looked at, not remembered from the start of the process
+		wd = wd0
+		must(os.Chdir(wd0))
+		if h%5 == 4 {
+			must(os.Chdir(altDir))
+			wd, _ = os.Getwd()
+		}
 		slog.VerifResetGlobals()
 		rules := []c18Rule{{false, c18VolExpr, "~"}}
 		homeRemoved := false
@@ -161,7 +173,8 @@ func runC18(r *run) {
 		paths := []string{home + "/proj/a.go", home, cwd0 + "/x/y.go", wd + "/harness/c18.go", "/opt/secret-corp/monorepo/svc/vendor/lib/y.go",
 			"/root/proj/vendor/x.go", "/data/deep/er/f.go", "/data/f.go", "/srv/x y/z.go", "/Volumes/ext/src/a.go", "/Volumes", "/Volumes/",
 			"/Volumes/x", "/VolumesBackup/2024/src/a.go", "/usr/lib/go/src/runtime/proc.go", "relative/path.go", "", "/a/x", "/t/x", "/",
-			home + "/work/internal/a.go", "/tmp/node_modules/z.js", "/srv/build/acme/svc/main.go", "/mnt/vol/a.go", "/mnt/volume/a.go"}
+			home + "/work/internal/a.go", "/tmp/node_modules/z.js", "/srv/build/acme/svc/main.go", "/mnt/vol/a.go", "/mnt/volume/a.go",
+			filepath.Dir(wd0) + "/c18-sibling/gen/a.go", wd0 + "/harness/c18.go", altDir + "/sub/b.go"}
 		for _, fl := range []slog.Flags{slog.Lprivacypath | slog.Lprivacypathregexp, slog.Lprivacypath, 0, slog.Lprivacypathregexp} {
 			slog.SetFlags(base | fl)
 			if g.chance(1, 2) {
